@@ -249,9 +249,88 @@ def lateOk (cfg : Cfg) (probes ckeys : List Str) (h : List (Nat × Op)) (now : N
   | none => true
   | some (pre, recent) => !lateRegime cfg pre recent now probes || decide (o = expectedLate cfg probes ckeys pre recent)
 
+/-! ### several windows: every change of an upkeep's blocking state starts its lockout afresh
+
+"… filtered until a log arrives or the lockout expires": the lockout that counts is the one of the blocking state
+in force.  The coordinator rewrites an upkeep's lock on every event that changes it (the accept of a newer check block,
+the first log of the in-flight key, a re-orged perform), and each rewrite renews the deadline.  So a history may span
+any number of lockout windows: as long as no lock had run out when something happened, the blocking state of an id is
+still the join of ALL its contributions, and it stays in force for one whole window after its LAST change — not after
+its first. -/
+
+/-- the upkeep id an operation is about -/
+def opId : Op → Option Str
+  | .accept k => (splitUpkeepKey k).map (·.2)
+  | .perform l => (splitUpkeepKey l.key).map (·.2)
+  | .stale l => (splitUpkeepKey l.key).map (·.2)
+
+/-- `id ↦ time` (first binding counts) -/
+def sinceOf : List (Str × Nat) → Str → Option Nat
+  | [], _ => none
+  | (k', r) :: l, k => if k' = k then some r else sinceOf l k
+
+def setSince (l : List (Str × Nat)) (id : Str) (t : Nat) : List (Str × Nat) :=
+  (id, t) :: l.filter (fun p => p.1 ≠ id)
+
+/-- the ghost of a timed history and, per upkeep id blocked so far, the time at which the blocking state the history
+    prescribes for it changed last (the lock started, or was raised to a higher (check block, released-up-to)) -/
+structure TGhost where
+  g     : Ghost
+  since : List (Str × Nat)
+deriving Repr
+
+def TGhost.init : TGhost := { g := Ghost.init, since := [] }
+
+/-- at time `t` no lock has run out: every id blocked so far changed last at most one window ago -/
+def TGhost.liveAt (w : Nat) (tg : TGhost) (t : Nat) : Bool :=
+  tg.since.all fun p => decide (p.2 ≤ t) && decide (t ≤ p.2 + w)
+
+def TGhost.step (cfg : Cfg) (tg : TGhost) (t : Nat) (op : Op) : TGhost :=
+  let g' := tg.g.step cfg op
+  { g := g'
+    since := match opId op with
+      | none => tg.since
+      | some id => if g'.block id = tg.g.block id then tg.since else setSince tg.since id t }
+
+/-- `none`: some lock had run out when an operation was processed (outside the statement) -/
+def tghostFrom (cfg : Cfg) (tg : TGhost) : List (Nat × Op) → Option TGhost
+  | [] => some tg
+  | (t, op) :: h => if tg.liveAt cfg.window t then tghostFrom cfg (tg.step cfg t op) h else none
+
+/-- canonical keys, everything within the hour an accepted key stays active, and no lock had run out when an
+    operation was processed -/
+def liveRegime (cfg : Cfg) (h : List (Nat × Op)) (now : Nat) (probes : List Str) : Option TGhost :=
+  let t0 := minTime h now
+  if h.all (fun p => opCanon p.2) && probes.all probeCanon &&
+      h.all (fun p => decide (t0 ≤ p.1) && decide (p.1 ≤ t0 + activeTtlNs)) && decide (now ≤ t0 + activeTtlNs)
+  then tghostFrom cfg TGhost.init h else none
+
+/-- the probe's id was never blocked, or its blocking state changed last at most one window before `now` -/
+def probeLive (w : Nat) (tg : TGhost) (now : Nat) (key : Str) : Bool :=
+  match splitUpkeepKey key with
+  | none => true
+  | some (_, id) =>
+    match sinceOf tg.since id with
+    | some r => decide (now ≤ r + w)
+    | none => true
+
+/-- the answers for the probes whose lock (if any) is still running -/
+def maskLive (w : Nat) (tg : TGhost) (now : Nat) (probes : List Str) (ans : List (Bool × Bool)) :
+    List (Option (Bool × Bool)) :=
+  List.zipWith (fun k a => if probeLive w tg now k then some a else none) probes ans
+
+def liveOk (cfg : Cfg) (probes ckeys : List Str) (h : List (Nat × Op)) (now : Nat) (o : Obs) : Bool :=
+  match liveRegime cfg h now probes with
+  | none => true
+  | some tg =>
+    let e := expected cfg probes ckeys h
+    decide (o.confirmed = e.confirmed) && decide (o.pending.length = probes.length) &&
+      decide (maskLive cfg.window tg now probes o.pending = maskLive cfg.window tg now probes e.pending)
+
 def pointOk (cfg : Cfg) (probes ckeys : List Str) (r : Run) (p : Nat × Nat) (o : Obs) : Bool :=
   let h := r.ops.take p.1
-  (!regime cfg h p.2 probes || decide (o = expected cfg probes ckeys h)) && lateOk cfg probes ckeys h p.2 o
+  (!regime cfg h p.2 probes || decide (o = expected cfg probes ckeys h)) && lateOk cfg probes ckeys h p.2 o &&
+    liveOk cfg probes ckeys h p.2 o
 
 def zipAll {α β} (f : α → β → Bool) : List α → List β → Bool
   | [], [] => true
@@ -313,12 +392,30 @@ def explainObs (cfg : Cfg) (probes ckeys : List Str) (h : List (Nat × Op)) (o :
     | some t => explainProbe g t.1 t.2.1
     | none => "ok"
 
+def explainLive (cfg : Cfg) (probes ckeys : List Str) (h : List (Nat × Op)) (now : Nat) (o : Obs) : String :=
+  match liveRegime cfg h now probes with
+  | none => "ok"
+  | some tg =>
+    let g := ghost cfg (h.map (·.2))
+    let e := expected cfg probes ckeys h
+    if o.confirmed ≠ e.confirmed then "unconfirmed_iff_no_log (several windows): IsTransmissionConfirmed differs from (not accepted or log seen)"
+    else if o.pending.length ≠ probes.length then "wrong number of probe answers"
+    else
+      match (probes.zip (o.pending.zip e.pending)).find? (fun t => probeLive cfg.window tg now t.1 && t.2.1 != t.2.2) with
+      | some t =>
+        if t.2.2.1 && !t.2.1.1 then
+          "lockout_renewed: id not filtered although its blocking state changed last less than one lockout window ago (the lockout counts from the last change, not from the first write)"
+        else "lockout_renewed: " ++ explainProbe g t.1 t.2.1
+      | none => "ok"
+
 def explainRun (cfg : Cfg) (probes ckeys : List Str) (r : Run) (out : List Obs) : Option String :=
   match (r.points.zip out).find? (fun po => !pointOk cfg probes ckeys r po.1 po.2) with
   | some (p, o) =>
     if !lateOk cfg probes ckeys (r.ops.take p.1) p.2 o then
       some "late log: after the lockout ran out, the answers differ from (logs since the pause applied to the expired ids; keys still active)"
-    else some (explainObs cfg probes ckeys (r.ops.take p.1) o)
+    else if !(!regime cfg (r.ops.take p.1) p.2 probes || decide (o = expected cfg probes ckeys (r.ops.take p.1))) then
+      some (explainObs cfg probes ckeys (r.ops.take p.1) o)
+    else some (explainLive cfg probes ckeys (r.ops.take p.1) p.2 o)
   | none => if r.points.length ≠ out.length then some "wrong number of observations" else none
 
 def explain (cfg : Cfg) (probes ckeys : List Str) (runs : List Run) (outs : List (List Obs)) : String :=
